@@ -166,6 +166,33 @@ impl<'a> Case<'a> {
         let sig = format!("panic@{}", p.loc());
         self.fail("panic", &sig, format!("{}: panicked at {}: {}", what, p.loc(), p.msg));
     }
+    /// Like `lib`, for calls whose result is a pure function of their arguments: in guard mode
+    /// (native lanes) the call is made twice, with fresh heap memory pre-filled with two different
+    /// poison bytes; a result that differs depends on uninitialised memory.
+    pub fn lib_stable<T: PartialEq>(&mut self, what: &str, f: impl Fn() -> T) -> Option<T> {
+        self.lib_stable_by(what, f, |a, b| a == b)
+    }
+    /// `lib_stable` with an explicit equality (for results that do not implement PartialEq)
+    pub fn lib_stable_by<T>(&mut self, what: &str, f: impl Fn() -> T, same: impl Fn(&T, &T) -> bool) -> Option<T> {
+        if !monitor::guard_active() {
+            return self.lib(what, f);
+        }
+        monitor::set_poison(0xA5);
+        let r1 = self.lib(what, &f)?;
+        monitor::set_poison(0x3C);
+        let r2 = monitor::guarded(&f);
+        monitor::set_poison(0xA5);
+        self.stat_add("calls_repeated_under_a_second_poison_byte", 1.0);
+        match r2 {
+            Ok(v2) => {
+                if !same(&v2, &r1) {
+                    self.fail("uninitialised_memory", "result_depends_on_uninitialised_memory", format!("{}: the same call returned a different result when fresh heap memory was pre-filled with 0x3C instead of 0xA5", what));
+                }
+            }
+            Err(p) => self.fail_panic(what, &p),
+        }
+        Some(r1)
+    }
     /// Call into the library; a panic is reported as a violation and None is returned.
     pub fn lib<T>(&mut self, what: &str, f: impl FnOnce() -> T) -> Option<T> {
         match monitor::guarded(f) {
